@@ -184,6 +184,7 @@ func (hc *httpCache) FromBytes(data []byte) (err error) {
 	if err != nil {
 		return
 	}
+	resp.createdAt = hc.createdAt
 
 	return
 }
@@ -292,6 +293,7 @@ func (hc *httpCache) Cacheable(resp *HTTPResponse, ttl int) {
 	resp.CompressSrv = compress.BestCompression
 	_ = resp.Compress()
 	hc.createdAt = nowUnix()
+	resp.createdAt = hc.createdAt
 	hc.expiredAt = hc.createdAt + int64(ttl)
 	hc.status = StatusHit
 	hc.response = resp
